@@ -1,5 +1,267 @@
-//! Engine `authsim` (skeleton).
+//! Engine `authsim`: property C35 "Replicas accept only authentic commands".
+//!
+//! Nodes run the real `ClientState` + `VmPolicy` + compiler + VM + crypto engine + FFIs on the
+//! signing policy shipped with the repository; the harness transport corrupts sync responses
+//! field by field; the oracle compares every offered command with the shadow of what honest
+//! replicas sealed.
+
+mod generate;
+mod minimise;
+mod mutate;
+mod node;
+mod shadow;
+mod sim;
+mod wire_mirror;
+
+use std::collections::{BTreeMap, BTreeSet};
+
+use serde_json::json;
+use vcommon::{Cli, Evidence, Tier, Violation};
+
+use crate::{
+    generate::{Outcome, cfg_for, run_seeded},
+    mutate::ALL_KINDS,
+    sim::{Cfg, Found, Step},
+};
+
+const QUICK_RUNS: u64 = 8000;
+const THOROUGH_RUNS: u64 = 80000;
+const NONTRIVIAL: &str = "some sync session offered a forged command (not matching anything an honest replica sealed) to a replica that held its parent and did not already hold its id, the replica rejected it, and the same session also accepted at least one honest command";
+
+#[derive(serde::Serialize, serde::Deserialize)]
+pub struct ReplayFile {
+    engine: String,
+    property: String,
+    seed: u64,
+    cfg: Cfg,
+    steps: Vec<Step>,
+    violation: Found,
+    minimised_from: usize,
+}
+
+/// Signatures of C35 findings listed in /verif/known-findings.txt.
+fn known_sigs() -> Vec<String> {
+    vcommon::load_known_findings().into_iter().filter(|k| k.property == "C35").map(|k| k.sig).collect()
+}
+
+fn flag_value(cli: &Cli, k: &str) -> bool {
+    cli.extra.get(k).is_some_and(|v| v == "1" || v == "true" || v == "yes")
+}
+
 fn main() {
+    node::install_quiet_panic_hook();
     let cli = vcommon::parse_cli();
-    vcommon::harness_error(&format!("authsim: property {:?} not built yet", cli.property));
+    if cli.property != "C35" {
+        vcommon::harness_error(&format!("authsim does not serve property {:?}", cli.property));
+    }
+    if let Some(path) = &cli.replay {
+        std::process::exit(replay_file(&cli, path));
+    }
+    if cli.has_flag("audit") {
+        std::process::exit(audit(&cli));
+    }
+    let runs = cli.extra.get("runs").and_then(|s| s.parse().ok()).unwrap_or(match cli.tier {
+        Tier::Quick => QUICK_RUNS,
+        Tier::Thorough => THOROUGH_RUNS,
+    });
+    let fault_free = cli.has_flag("fault-free");
+    let strict_merge = flag_value(&cli, "strict-merge");
+    let mut ev = Evidence::new(&cli, "exploration");
+    let seed = cli.seed;
+    let known_sigs = known_sigs();
+    let outcomes: Vec<(u64, Cfg, Outcome)> = vcommon::parallel_map(runs, cli.jobs, |i| {
+        let s = vcommon::mix(seed, i);
+        let cfg = cfg_for(s, fault_free, strict_merge, &known_sigs);
+        let o = run_seeded(&cfg);
+        (s, cfg, o)
+    });
+
+    let mut counters: BTreeMap<String, u64> = BTreeMap::new();
+    let mut histories: BTreeSet<u64> = BTreeSet::new();
+    let mut distinct_nontrivial: BTreeSet<u64> = BTreeSet::new();
+    let mut anomalies: Vec<String> = Vec::new();
+    let mut steps_total = 0u64;
+    let mut violations: Vec<Violation> = Vec::new();
+    let mut samples = Vec::new();
+    let mut max_sealed = 0;
+    for (s, cfg, o) in &outcomes {
+        for (k, v) in &o.stats.counters {
+            *counters.entry(k.clone()).or_insert(0) += v;
+        }
+        histories.insert(o.event_hash);
+        steps_total += o.stats.steps;
+        max_sealed = max_sealed.max(o.sealed);
+        if o.nontrivial {
+            distinct_nontrivial.insert(o.event_hash);
+        }
+        for a in &o.stats.anomalies {
+            if anomalies.len() < 12 {
+                anomalies.push(format!("seed {s:#x}: {a}"));
+            }
+        }
+        // One replay per distinct signature; known findings do not use up the slots.
+        for f in &o.found {
+            let is_known = known_sigs.contains(&f.sig);
+            let slots_used = violations.iter().filter(|v| !known_sigs.contains(&v.sig)).count();
+            if (is_known || slots_used < 5) && !violations.iter().any(|v| v.sig == f.sig) {
+                violations.push(minimise::minimise_and_write(&cli.property, *s, cfg, &o.steps, f));
+            }
+            *counters.entry(format!("violating_runs.{}", f.sig)).or_insert(0) += 1;
+        }
+        if !o.found.is_empty() {
+            *counters.entry("violating_runs".into()).or_insert(0) += 1;
+        }
+        if samples.len() < 2 && o.nontrivial && o.steps.len() <= 26 && o.found.is_empty() {
+            samples.push(json!({"seed": format!("{s:#x}"), "nodes": cfg.n_nodes, "fault_pct": cfg.fault_pct, "steps": o.steps, "event_log": generate::replay_log(cfg, &o.steps)}));
+        }
+    }
+    if samples.is_empty() {
+        if let Some((s, cfg, o)) = outcomes.first() {
+            samples.push(json!({"seed": format!("{s:#x}"), "nodes": cfg.n_nodes, "fault_pct": cfg.fault_pct, "steps": o.steps.iter().take(30).collect::<Vec<_>>()}));
+        }
+    }
+    let c = |k: &str| counters.get(k).copied().unwrap_or(0);
+
+    // Per mutation kind.
+    let mut per_kind = serde_json::Map::new();
+    for k in ALL_KINDS.iter().map(|k| format!("{k:?}")).chain(["none".to_string()]) {
+        let g = |f: &str| c(&format!("mut.{k}.{f}"));
+        per_kind.insert(
+            k.clone(),
+            json!({
+                "responses_mutated": c(&format!("fault.{k}")),
+                "inapplicable": c(&format!("inapplicable.{k}")),
+                "message_refused_by_decoder": g("message_refused_by_decoder"),
+                "forged_offered": g("offered"),
+                "reached_verification": g("reached_verification"),
+                "rejected": g("rejected"),
+                "skipped_as_already_held": g("skipped_as_known"),
+                "accepted_merge_parent_KNOWN_FINDING_incl_onward_propagation": g("ACCEPTED.merge-parent"),
+                "accepted_other_VIOLATION": counters.iter().filter(|(x, _)| x.starts_with(&format!("mut.{k}.ACCEPTED.")) && !x.ends_with(".merge-parent")).map(|(_, v)| *v).sum::<u64>(),
+                "outcome_undetermined": g("undetermined"),
+                "honest_accepted_in_same_response": g("honest_accepted_alongside"),
+            }),
+        );
+    }
+    let pick = |prefix: &str| -> BTreeMap<String, u64> { counters.iter().filter(|(k, _)| k.starts_with(prefix)).map(|(k, v)| (k[prefix.len()..].to_string(), *v)).collect() };
+
+    ev.evaluations = outcomes.len() as u64;
+    ev.distinct_nontrivial = distinct_nontrivial.len() as u64;
+    ev.rule = format!(
+        "each evaluation is one seeded simulated run: 2-4 nodes run the real ClientState/VmPolicy/VM/crypto engine/FFIs on aranya-model's ffi-policy.md; an owner creates the graph, devices register their keys, honest replicas publish create/increment/decrement commands and sync through a harness transport that mutates a drawn share of the sync responses (one explicit mutation per response, kinds listed under per_mutation_kind) before the requester decodes them; every command handed to add_commands is compared with the shadow of sealed commands. Steps, mutations and all key material come from PRNG streams derived from mix(seed, run index). A run is counted non-trivial when: {NONTRIVIAL}. Distinct = distinct event-log hash (every step, offered command, classification and outcome)."
+    );
+    ev.samples = samples;
+    ev.violations = violations.len() as u64;
+    ev.set("faults_fired", json!(pick("fault.")));
+    ev.set("per_mutation_kind", serde_json::Value::Object(per_kind));
+    ev.set("forged_offered_by_first_differing_bound_field", json!(pick("forged.")));
+    ev.set("undetermined_outcomes", json!(pick("undetermined.")));
+    ev.set("rejection_errors", json!(pick("reject_error.")));
+    ev.set(
+        "probes",
+        json!({
+            "honest_accepted": c("honest_accepted"),
+            "honest_accepted_from_other_author_via_third_party": c("honest_accepted_other_author"),
+            "honest_duplicate_skipped": c("honest_duplicate_skipped"),
+            "honest_rejected_because_parent_missing": c("honest_rejected_parent_missing"),
+            "sessions_with_forged_rejected_at_verification": c("sessions_with_forged_rejected_at_verification"),
+            "nontrivial_sessions": c("nontrivial_sessions"),
+            "batch_unprocessed_after_error": c("batch_unprocessed_after_error"),
+            "batch_ambiguous_failure": c("batch_ambiguous_failure"),
+            "transport_rejected_by_sync_decoder": c("transport_rejected"),
+            "honest_published": c("honest_published"),
+            "honest_action_refused_by_policy": c("honest_action_refused"),
+            "sealed_signed": c("sealed.signed"),
+            "merge_commands_written": c("sealed.merge"),
+            "tainted_node_events": c("tainted_nodes_events"),
+        }),
+    );
+    ev.set("sessions", json!({"fault_phase": c("sessions"), "quiescent": c("sessions.quiescent"), "responses": c("responses"), "commands_sent": c("commands_sent")}));
+    ev.set("quiescence", json!({"rounds": c("quiescence_rounds"), "runs_checked": c("quiescence_checked"), "runs_unchecked_because_an_open_outcome_command_changed_graph_structure": c("quiescence_unchecked_tainted")}));
+    ev.set("distinct_histories", json!(histories.len()));
+    ev.set("distinct_measure", json!("FNV hash of the per-run event log"));
+    ev.set("sim_steps", json!(steps_total));
+    ev.set("largest_graph_commands", json!(max_sealed));
+    ev.set("anomalies_outside_claimed_properties", json!(anomalies));
+    ev.set("anomaly_events", json!(c("anomaly_events")));
+    ev.set("violating_runs_by_signature", json!(pick("violating_runs.")));
+    ev.set("known_finding_signatures_tolerated", json!(known_sigs));
+    ev.set(
+        "components",
+        json!({
+            "real": ["aranya-runtime ClientState / Transaction / sync requester + responder / linear storage (memory manager)", "VmPolicy (call_rule, open_command, call_action, seal)", "aranya-policy-lang parser + aranya-policy-compiler on ffi-policy.md (verbatim from aranya-model/src/tests)", "aranya-policy-vm", "aranya-crypto DefaultEngine + DefaultCipherSuite (Ed25519 signatures, key wrapping)", "aranya_crypto_ffi::Ffi, aranya_device_ffi::FfiDevice, aranya_envelope_ffi::Ffi, aranya_idam_ffi::Ffi, aranya_perspective_ffi::FfiPerspective"],
+            "stub": ["transport (in-process, one explicit mutation per response)", "effect sink (recording)", "key store: aranya_crypto::keystore::memstore::MemStore (in memory, cloned into the crypto and idam FFIs)", "policy store (one VmPolicy for every policy id, as aranya-model's ModelPolicyStore)", "Csprng: seeded splitmix stream (engine root key, device keys, wrapping nonces, session ids)"],
+        }),
+    );
+    ev.assumptions = vec![
+        "OS randomness is not used: DefaultEngine is built over a seeded Csprng, Ed25519 signing is deterministic".into(),
+        "the adversary controls the transport only: it recombines honest material and random bytes, it holds no honest signing key".into(),
+        "merge commands carry no author and no signature and never reach the policy; a merge-shaped command that no honest replica wrote is counted under outcome_undetermined (merge-shaped), not asserted either way; --strict-merge 1 asserts rejection".into(),
+        "the shipped policy verifies Init with the key carried in its own payload and ignores the envelope's author: an Init whose author id alone was changed is counted under outcome_undetermined (init-author)".into(),
+        "changes confined to priority, the parent's max cut, policy bytes or bytes after the serialized VmProtocolData are transport metadata the statement does not bind: counted, not asserted".into(),
+        "a clean batch is evidence, not proof: the search is sampled".into(),
+    ];
+    ev.write(&cli.evidence_path());
+    let code = vcommon::report(&cli.property, &violations);
+    println!(
+        "{}: {} runs, {} steps, {} sessions, forged offered {} / reached verification {} / rejected {}, honest accepted {}, {} distinct histories, {} non-trivial, {} violations, {} anomalies",
+        cli.property,
+        outcomes.len(),
+        steps_total,
+        c("sessions") + c("sessions.quiescent"),
+        ALL_KINDS.iter().map(|k| c(&format!("mut.{k:?}.offered"))).sum::<u64>(),
+        ALL_KINDS.iter().map(|k| c(&format!("mut.{k:?}.reached_verification"))).sum::<u64>(),
+        ALL_KINDS.iter().map(|k| c(&format!("mut.{k:?}.rejected"))).sum::<u64>(),
+        c("honest_accepted"),
+        histories.len(),
+        distinct_nontrivial.len(),
+        violations.len(),
+        c("anomaly_events")
+    );
+    std::process::exit(code);
+}
+
+fn replay_file(cli: &Cli, path: &std::path::Path) -> i32 {
+    let text = std::fs::read_to_string(path).unwrap_or_else(|e| vcommon::harness_error(&format!("cannot read replay {}: {e}", path.display())));
+    let rf: ReplayFile = serde_json::from_str(&text).unwrap_or_else(|e| vcommon::harness_error(&format!("bad replay file: {e}")));
+    let o = generate::replay(&rf.cfg, &rf.steps);
+    match o.found.iter().find(|f| f.class == rf.violation.class) {
+        Some(f) => {
+            let v = Violation { property: rf.property.clone(), class: f.class.clone(), sig: f.sig.clone(), detail: f.detail.clone(), seed: rf.seed, replay: path.to_path_buf() };
+            println!("replay reproduces: {} at step {}", f.class, f.step);
+            vcommon::report(&cli.property, &[v])
+        }
+        None => {
+            println!("replay did not reproduce {} (found: {:?})", rf.violation.class, o.found.iter().map(|f| &f.class).collect::<Vec<_>>());
+            0
+        }
+    }
+}
+
+/// Determinism audit: N seeds, each run twice on different worker layouts; event hashes and
+/// findings must agree. Exit 2 on mismatch.
+fn audit(cli: &Cli) -> i32 {
+    let n = cli.extra.get("runs").and_then(|s| s.parse().ok()).unwrap_or(300u64);
+    let seed = cli.seed;
+    let strict_merge = flag_value(cli, "strict-merge");
+    let known_sigs = known_sigs();
+    let one = |jobs: usize| -> Vec<(u64, usize, u64)> {
+        vcommon::parallel_map(n, jobs, |i| {
+            let s = vcommon::mix(seed, i);
+            let o = run_seeded(&cfg_for(s, false, strict_merge, &known_sigs));
+            (o.event_hash, o.found.len(), o.stats.steps)
+        })
+    };
+    let a = one(cli.jobs);
+    let b = one((cli.jobs / 3).max(1));
+    let mut h = Vec::new();
+    for (x, y) in a.iter().zip(b.iter()) {
+        if x != y {
+            eprintln!("HARNESS-ERROR: nondeterminism detected: {x:?} vs {y:?}");
+            return 2;
+        }
+        h.extend_from_slice(&x.0.to_le_bytes());
+    }
+    println!("audit ok: {n} seeds x 2 executions identical; digest {:016x}", vcommon::fnv(&h));
+    0
 }
